@@ -1012,13 +1012,28 @@ func (ev *optimizerEval) resetCompiler(so *SimpleOptimizer) {
 	}
 }
 
+// compile compiles the expression to evaluate; an expression that exceeds a
+// capacity limit of the bytecode format is not evaluated.
+func (ev *optimizerEval) compile() (err error) {
+	defer func() {
+		if r := recover(); r != nil {
+			ie, ok := r.(*instructionError)
+			if !ok {
+				panic(r)
+			}
+			err = ie.err
+		}
+	}()
+	return ev.compiler.Compile(&ev.returnStmt)
+}
+
 func (ev *optimizerEval) eval(so *SimpleOptimizer, expr parser.Expr) (Object, bool) {
 	ev.resetCompiler(so)
 
 	ev.returnStmt.Result = expr
 
 	istrace := so.trace != nil
-	if err := ev.compiler.Compile(&ev.returnStmt); err != nil {
+	if err := ev.compile(); err != nil {
 		if istrace {
 			so.printTraceMsgf("compile error: %s", err)
 		}
